@@ -53,7 +53,8 @@ ASSUMPTIONS = [
     "keys containing '/' or equal to '.' (h5py path semantics), integer/bool keys for `in`/`[]`/`[]=` on the section, "
     "top-level bytes / set / dict / range / iterator inputs, tuples assigned through section[key] = (...), lone "
     "surrogates in text, text ending in NUL characters (dropped by numpy's str conversion; open known finding "
-    "C10-text-trailing-nul-dropped, oracle only), NaN payloads of float16/float32 *scalars* (quieted by the C cast) are outside the model",
+    "C10-text-trailing-nul-dropped, oracle only), a bare np.uint64 scalar >= 2**63 handed to extend_values (wraps "
+    "silently; open known finding C10-bare-uint64-scalar-wraps, oracle only), NaN payloads of float16/float32 *scalars* (quieted by the C cast) are outside the model",
     "floating point values are compared as IEEE bit patterns; np.floatN scalars are represented by their exact "
     "widening to double",
     "a refusal with ValueError (value of a class get_dtype does not know: None, bytes, complex, nested list) is "
@@ -586,6 +587,8 @@ class Gen:
         r = self.rng
         if r.random() < 0.25:
             v = self.val(kind)
+            if v["c"] == "npInt" and not (INT64_MIN <= int(v["v"]) <= INT64_MAX):
+                return self.as_list([v])     # a bare np.uint64 >= 2**63 is outside the model (wraps silently)
             return {"scalar": v}
         return self.as_list(self.homog(kind))
 
@@ -923,61 +926,74 @@ def correspondence(ctx):
     histories = []          # (ops, impl outputs)
     dist = {"ops": {}, "impl_errors": {}, "history_lengths": {}, "profiles": {"valid": 0, "junk": 0, "fixed": 0,
                                                                                 "corpus": 0}}
+    disagreements = []
+    seen = set()
+    samples = []
+    counters = {"evals": 0, "histories": 0}
+
+    def flush(histories):
+        """run one batch through the model driver and compare; batches keep the heap small (nixio's File.close()
+        calls gc.collect(), whose cost grows with the number of live objects)"""
+        if not histories:
+            return
+        lines = []
+        for ops, _ in histories:
+            lines.append(["reset"])
+            lines.extend(ops)
+        mouts = core.run_driver(PROP, lines)
+        start = 0
+        for ops, iouts in histories:
+            pos = start + 1               # after the reset line
+            start += 1 + len(ops)
+            counters["histories"] += 1
+            prev = {"props": [], "secs": []}
+            bl = str(min(len(ops) // 10 * 10, 40))
+            dist["history_lengths"][bl] = dist["history_lengths"].get(bl, 0) + 1
+            for k, (op, io) in enumerate(zip(ops, iouts)):
+                mo = mouts[pos]
+                pos += 1
+                counters["evals"] += 1
+                tag = op_tag(op)
+                dist["ops"][tag] = dist["ops"].get(tag, 0) + 1
+                if "err" in io:
+                    dist["impl_errors"][io["err"]] = dist["impl_errors"].get(io["err"], 0) + 1
+                if nontrivial(op, io, prev):
+                    seen.add(core.sha(core.canon([op, io.get("ok"), io.get("err")])))
+                prev = io["state"]
+                if not compare(mo, io):
+                    disagreements.append(Disagreement({"ops": ops[:k + 1]}, _brief(mo), _brief(io)))
+                    break
+            else:
+                if len(samples) < 4 and rng.random() < 0.05:
+                    samples.append({"case": ops[:3], "model": _brief(mouts[pos - 1])})
+        del histories[:]
+
     n = 0
+    batch = []
     for h in core.load_corpus(PROP):
         ops = h["ops"]
-        histories.append((ops, run_history_impl(ctx, ops, n)))
+        batch.append((ops, run_history_impl(ctx, ops, n)))
         dist["profiles"]["corpus"] += 1
         n += 1
     for ops in FIXED_HISTORIES:
-        histories.append((ops, run_history_impl(ctx, ops, n)))
+        batch.append((ops, run_history_impl(ctx, ops, n)))
         dist["profiles"]["fixed"] += 1
         n += 1
     g = Gen(rng)
-    for _ in range(ctx.budget(180, 3000)):
+    for _ in range(ctx.budget(180, 2500)):
         junky = rng.random() < 0.2
         im = Impl(ctx.tmpfile("c10-%d.nix" % n))
         try:
             ops, outs = gen_history(ctx, g, rng.choice([6, 10, 14, 20, 30, 45]), junky, im)
         finally:
             im.close()
-        histories.append((ops, outs))
+        batch.append((ops, outs))
         dist["profiles"]["junk" if junky else "valid"] += 1
         n += 1
-    lines = []
-    for ops, _ in histories:
-        lines.append(["reset"])
-        lines.extend(ops)
-    mouts = core.run_driver(PROP, lines)
-    disagreements = []
-    seen = set()
-    evals = 0
-    pos = 0
-    start = 0
-    samples = []
-    for ops, iouts in histories:
-        pos = start + 1               # after the reset line
-        start += 1 + len(ops)
-        prev = {"props": [], "secs": []}
-        bl = str(min(len(ops) // 10 * 10, 40))
-        dist["history_lengths"][bl] = dist["history_lengths"].get(bl, 0) + 1
-        for k, (op, io) in enumerate(zip(ops, iouts)):
-            mo = mouts[pos]
-            pos += 1
-            evals += 1
-            tag = op_tag(op)
-            dist["ops"][tag] = dist["ops"].get(tag, 0) + 1
-            if "err" in io:
-                dist["impl_errors"][io["err"]] = dist["impl_errors"].get(io["err"], 0) + 1
-            if nontrivial(op, io, prev):
-                seen.add(core.canon([op, io.get("ok"), io.get("err")]))
-            prev = io["state"]
-            if not compare(mo, io):
-                disagreements.append(Disagreement({"ops": ops[:k + 1]}, _brief(mo), _brief(io)))
-                break
-        else:
-            if len(samples) < 4 and rng.random() < 0.05:
-                samples.append({"case": ops[:3], "model": _brief(mouts[pos - 1])})
+        if len(batch) >= 200:
+            flush(batch)
+    flush(batch)
+    evals = counters["evals"]
     disagreements.sort(key=lambda d: len(d.case["ops"]))
     return {"evaluations": evals, "distinct_nontrivial": len(seen),
             "rule": "histories of 6-45 operations (create / assign / extend / clear / attribute setters / dict-style "
@@ -988,7 +1004,7 @@ def correspondence(ctx):
                     "the model. non-trivial = operation raised, changed the state or returned a non-empty read; distinct "
                     "by canonical JSON of (operation, result)",
             "samples": samples, "distribution": dist, "disagreements": disagreements, "exhaustive": False,
-            "histories": len(histories)}
+            "histories": counters["histories"]}
 
 
 def _brief(o):
@@ -1039,6 +1055,14 @@ def _embedded_nul(cp):
     while t and t[-1] == 0:
         t.pop()
     return 0 in t
+
+
+def _out_of_range_int(inp):
+    if not isinstance(inp, dict):
+        return False
+    vals = [inp["scalar"]] if "scalar" in inp else inp.get("list", [])
+    return bool(vals) and all(v.get("c") in ("int", "npInt") for v in vals) and \
+        any(not (INT64_MIN <= int(v["v"]) <= INT64_MAX) for v in vals)
 
 
 def _trailing_nul(op):
@@ -1157,6 +1181,10 @@ def check_history(ctx, ops, n, label):
                     if changed:
                         fail("a refused call changed stored values", k, out["err"], "unchanged",
                              "Property.values / extend_values / Section.create_property")
+                if target is not None and "err" not in out and target["dtype"] == "int64" and _out_of_range_int(inp):
+                    fail("an integer outside int64 was accepted and stored as another value", k,
+                         None if after.get(target["id"]) is None else after[target["id"]]["vals"][-3:], "refused",
+                         "Property." + kind)
                 if target is not None and cl is not None and target["dtype"] in MAIN_DTYPES:
                     pk = KIND_OF_DTYPE[target["dtype"]]
                     now = after.get(target["id"])
@@ -1298,7 +1326,13 @@ TRAILING_NUL_HISTORY = [["create", cps("t"), {"list": [jstr("x")]}],
                         ["set", {"n": cps("t")}, {"list": [jstr("a\x00")]}],
                         ["extend", {"n": cps("t")}, {"list": [jstr("b\x00\x00")]}]]
 
+UINT64_HISTORY = [["create", cps("i"), {"list": [jint(1)]}],
+                  ["extend", {"n": cps("i")}, {"scalar": jnpint("uint64", 2 ** 64 - 1)}],
+                  ["extend", {"n": cps("i")}, {"list": [jnpint("uint64", 2 ** 64 - 1)]}],
+                  ["set", {"n": cps("i")}, {"scalar": jnpint("uint64", 2 ** 63)}]]
+
 ORACLE_FIXED = [
+    ("bare-uint64-scalar", UINT64_HISTORY),            # outside the model (Input.WF): oracle only
     ("nul-text", NUL_HISTORY),
     ("trailing-nul-text", TRAILING_NUL_HISTORY),      # outside the model (Input.WF): oracle only
     # repaired in /repo (999983a, 563d8d3): overflow used to truncate / zero-pad, failed creates left a property
@@ -1379,6 +1413,11 @@ def matches_known(entry, failure):
     if entry.get("class") == "nul-text-refused-after-resize":
         return (failure.what == "a refused call changed stored values" and failure.observed == "ValueError"
                 and op[0] in ("set", "extend", "setitem") and _has_nul_text(op))
+    if entry.get("class") == "bare-np-uint64-scalar-wraps":
+        inp = op[2] if len(op) > 2 else None
+        return (failure.what == "an integer outside int64 was accepted and stored as another value"
+                and op[0] == "extend" and isinstance(inp, dict) and "scalar" in inp
+                and inp["scalar"].get("c") == "npInt")
     if entry.get("class") == "text-trailing-nul-dropped":
         # np.array(vals, dtype=str) drops trailing NULs: only read-back failures of a store whose text ends in NUL
         return (op[0] in ("create", "set", "extend", "setitem") and _trailing_nul(op) and failure.what in (
@@ -1392,6 +1431,8 @@ def reproduces(ctx, entry):
         return any(matches_known(entry, f) for f in check_history(ctx, NUL_HISTORY, 999999, "known"))
     if entry.get("class") == "text-trailing-nul-dropped":
         return any(matches_known(entry, f) for f in check_history(ctx, TRAILING_NUL_HISTORY, 999997, "known"))
+    if entry.get("class") == "bare-np-uint64-scalar-wraps":
+        return any(matches_known(entry, f) for f in check_history(ctx, UINT64_HISTORY, 999996, "known"))
     return True
 
 
